@@ -28,7 +28,7 @@ man = {
     "hooks": {
         "guard": "ethercrab_verif",
         "enable": "RUSTFLAGS='--cfg ethercrab_verif' (set in harness/.cargo/config.toml; harness has a path dependency on /repo)",
-        "baseline_off_cmd": "cd /repo && cargo test --workspace --no-fail-fast --offline",
+        "baseline_off_cmd": "cd /repo && RUSTUP_TOOLCHAIN=1.88.0 cargo test --workspace --no-fail-fast --offline",
         "source_commits": [l.strip() for l in open(os.path.join(ROOT, "HOOK_COMMITS.txt")) if l.strip()] if os.path.exists(os.path.join(ROOT, "HOOK_COMMITS.txt")) else [],
         "add_only": True,
     },
